@@ -131,11 +131,14 @@ func (self ValueString) iterNext() (Value, bool) {
 	old := *self.currIterIdx
 	*self.currIterIdx++
 
-	shouldContinue := *self.currIterIdx <= len(self.Inner)
+	// Iterating over a string produces its characters (as strings of length one).
+	chars := []rune(self.Inner)
+
+	shouldContinue := *self.currIterIdx <= len(chars)
 
 	if shouldContinue {
 		return *NewValueString(
-			fmt.Sprint(self.Inner[old]),
+			string(chars[old]),
 		), true
 	} else {
 		self.iterReset()
